@@ -9,7 +9,9 @@ audit axioms; build the library + harness/hnorm.c (real entry points, guard page
      implementation vs model vs Python's unicodedata (Unicode 14.0; code points assigned there);
   3. strings: every primary composite pair, all Hangul L/V/T triples, seeded random strings of starters and shuffled
      combining marks (<= 12), out-of-range and surrogate cells at every position, dmax from 0 to ample, second
-     normalization of every result (idempotence on the implementation);
+     normalization of every result (idempotence on the implementation); wcsfc_s with destinations from 1 cell to result + 5
+     for every multi-character folding and strings of them (a store behind dest + dmax faults on the guard page and is
+     compared with the model's `overrun` flag);
   4. oracle (written from UAX #15 / the property text, independent of the model), classification against known_findings.jsonl.
 """
 import os, sys, json, random, time, subprocess, re, unicodedata, hashlib
@@ -135,7 +137,9 @@ def agree(dc, dm):
     if dm.get("oob") == "1":
         return True
     if dm.get("ovr") == "1":
-        return False          # such inputs are not generated
+        # the model predicts a store behind dest + dmax.  dest is flush against a PROT_NONE page, so that store must have
+        # faulted there (hnorm reports the page: guard-1 / guard-2); anything else is a disagreement
+        return dc.get("sig", "0") != "0" and dc.get("fa", "").startswith("guard")
     if dc.get("sig", "0") != "0":
         return False
     return (dc.get("ret"), dc.get("len"), dc.get("out")) == (dm.get("ret"), dm.get("len"), dm.get("out"))
@@ -156,6 +160,8 @@ class Check:
         ok = agree_fn(dc, dm)
         if dm is not None and dm.get("oob") == "1":
             res.count("model-outcome", "table-index-out-of-bounds")
+        if dm is not None and dm.get("ovr") == "1":
+            res.count("model-outcome", "store-behind-dest")
         for sig, detail in fails:
             ent = next((e for e in self.known if orch.known_match(e, PID, sig, self.slack)), None)
             if ent is not None and ok:
@@ -227,10 +233,20 @@ def oracle_norm(fn, mode, dmax, src, dc):
     return fails
 
 
-def oracle_direct(fn, src, dc):
-    """wcsnorm_reorder_s / wcsnorm_compose_s / wcsfc_s called directly: only the range clause of the property"""
+def multi_fold(c):
+    """full case folding of c has more than one character (Python's str.casefold(), Unicode 14.0 — independent of the model)"""
+    return c <= UMAX and not is_sur(c) and len(chr(c).casefold()) > 1
+
+
+def oracle_direct(fn, src, dc, swap=0):
+    """wcsnorm_reorder_s / wcsnorm_compose_s / wcsfc_s called directly: the range clause of the property, and no access behind
+    dest + dmax (dest ends where a PROT_NONE page starts: guard-1, or guard-2 when the arenas are swapped)"""
     if dc.get("sig", "0") != "0":
         big = any(c > UMAX for c in src)
+        txt = src[:src.index(0)] if 0 in src else src
+        if fn == "wcsfc_s" and not big and dc.get("fa") == ("guard-2" if swap else "guard-1"):
+            cls = "multichar-folding" if any(multi_fold(c) for c in txt) else "other"
+            return [("%s:access-behind-dest:%s" % (fn, cls), "signal %s on the page behind dest + dmax" % dc["sig"])]
         return [("%s:%s" % (fn, "out-of-range-crash" if big else "crash"), "signal %s at a %s address" % (dc["sig"], dc.get("fa")))]
     ret = int(dc["ret"])
     txt = src[:src.index(0)] if (0 in src and fn == "wcsfc_s") else src
@@ -409,13 +425,30 @@ def gen_ops(rng, tier):
     for c in (0x41, 0xDF, 0x390, 0xFB03, 0x61, 0x110000):
         for d in (0, 1, 2, 3, 4, 5, 1024, 1025):
             ops.append(dict(kind="towfc", dmax=d, c=c, tag="towfc-dmax", line="uni=towfc dmax=%d c=%x" % (d, c)))
+    # wcsfc_s with a destination that is too small, exactly fitting, or a few cells larger — dest flush against the guard page,
+    # so a store behind dest + dmax faults: every code point with a multi-character folding on its own, several in a row, mixed
+    # with single-character cells, dmax from 1 to result length + 5, both memory layouts
+    multi = [c for c in range(0x110000) if multi_fold(c)]
+    tight = [[c] for c in multi]
+    tight += [[0xDF, 0xDF], [0xDF] * 5, [0x41, 0xDF], [0xDF, 0x41], [0x61, 0x62, 0x63, 0xDF], [0x149, 0x1F0, 0x390, 0xFB03],
+              [0x1F80, 0x1F82], [0x1FB3] * 3, [0x1F82] * 4, [0xC9, 0xDF], [0xDF, 0xC9], [0x3A3, 0x20, 0xDF], [0x1CBB, 0xFB03],
+              [0xFB03, 0xFB04, 0xFB03], [0x1F80, 0x1F88, 0x1FB3, 0x1FB7], [0x1FB7, 0x1FC7, 0x1FD3], [0x130, 0x130], [0x1E9E, 0xDF, 0x1E96],
+              [0x41], [0x41, 0x42, 0x43], [0xC9, 0xC9], [0x3A3], [0x1CBB, 0x1CBC]]
+    single = [0x41, 0x61, 0x5A, 0xC9, 0x3A3, 0x20, 0x1CBB, 0x416, 0x4E00, 0x10400, 0x345, 0x300]
+    for _ in range(160 if tier == "quick" else 4000):
+        tight.append([rng.choice(multi) if rng.random() < 0.7 else rng.choice(single) for _ in range(rng.randint(1, 6))])
+    for i, cps in enumerate(tight):
+        want = len(unicodedata.normalize("NFD", "".join(chr(c) for c in cps).casefold()))
+        for d in range(1, want + 6):
+            sw = (i + d) & 1
+            ops.append(dict(kind="fc", dmax=d, src=cps, tag="fold-tight", swap=sw, line="uni=fc dmax=%d src=%s%s" % (d, hexs(cps), " swap=1" if sw else "")))
     return ops
 
 
 # ------------------------------------------------------------------ the check
 def fx_arg():
     v = os.environ.get("VERIF_C17_FX", "")
-    return (" fx=" + v) if re.fullmatch(r"[01]{2}", v) else ""
+    return (" fx=" + v) if re.fullmatch(r"[01]{2,3}", v) else ""      # compCast, rangeChk[, foldRoom]; two bits: foldRoom as in `current`
 
 
 def oracle_for(o, dc):
@@ -424,7 +457,7 @@ def oracle_for(o, dc):
     if o["kind"] in ("reorder", "compose"):
         return oracle_direct("wcsnorm_%s_s" % o["kind"], o["src"], dc)
     if o["kind"] == "fc":
-        return oracle_direct("wcsfc_s", o["src"], dc)
+        return oracle_direct("wcsfc_s", o["src"], dc, o.get("swap", 0))
     return []
 
 
@@ -524,7 +557,7 @@ def run_config(res, known, slack, opt, tier, seed, sides, full):
     for o, dc, dm in zip(ops, ci, mi):
         if dc is None:
             res.notes.append("no observation for " + o["line"][:200]); continue
-        if dm is not None and dm.get("ovr") == "1":
+        if dm is not None and dm.get("ovr") == "1" and o["kind"] != "fc":
             res.notes.append("generated input reaches the unsigned-dmax wrap (dropped): " + o["line"][:120]); continue
         if o["kind"] == "towfc":
             if o["dmax"] >= 4 and o["dmax"] <= 1024:
@@ -609,7 +642,7 @@ def run(tier, seed, replay=None):
 
     if drv_ok:
         o, _, _ = run_proc([orch.MODEL_BIN], "id=0 uni=fixes\n")
-        res.extra["model_fixes"] = dict(order="compCast,rangeChk", current=parse(o[0]).get("fx") if o else None, override=fxa.strip() or None)
+        res.extra["model_fixes"] = dict(order="compCast,rangeChk,foldRoom", current=parse(o[0]).get("fx") if o else None, override=fxa.strip() or None)
     configs = [(1, "-O0", True)]
     if tier != "quick":
         configs += [(0, "-O0", False), (1, "-O2", False)]
@@ -647,7 +680,7 @@ def run(tier, seed, replay=None):
     return orch.finish(res, PID, lean_ok, lean_log, audit, forb, "", trusted, assumptions,
                        extra_cov=dict(rule="every cell value 0..0x11000F individually through wcsnorm_s NFD and NFC, iswfc+towfc_s and wcsfc_s (exhaustive), plus strings: every primary composite pair and its "
                                            "composite, Hangul L/V/T, seeded random starter+shuffled-marks strings of length <= 12, out-of-range/surrogate cells at every position of four base strings "
-                                           "through all four entry points, dmax 0..len+8, second normalization of every result; evaluation = one (entry point, input, build) observation compared with the model "
+                                           "through all four entry points, dmax 0..len+8, wcsfc_s on every code point with a multi-character folding and on strings of them with dmax 1..len+5 (dest flush against a guard page), second normalization of every result; evaluation = one (entry point, input, build) observation compared with the model "
                                            "and judged by the oracle; distinct = distinct op line; non-trivial = the output differs from the input, the call failed, or it is a string op",
                                       exhaustive=True,
                                       exhaustive_scope="single-cell strings 0..0x11000F for wcsnorm_s NFD/NFC, iswfc/towfc_s, wcsfc_s, and the table helpers for 0..0x10FFFF; strings are sampled"))
